@@ -47,6 +47,13 @@ CLAIMED = {
         "Reassignment = the points/weights setters. Boundary ties within 1e-12*(1+r) are excluded. radius=inf on PeriodicGrid belongs to C11. Trusts cKDTree only through the brute-force comparison.",
         "DESIGN.md 3/C10",
     ),
+    "C03": (
+        "exploration",
+        "complete product of transform class x parameter alphabet x interior lattice points x call form (array, length-1 array, NumPy scalar), each compared with a multiprecision evaluation of the docstring formula and its mp.diff derivatives; inverse derivatives via the inverse-function identities on the oracle's derivatives",
+        "Every discrete combination of the alphabets (472 configurations incl. the Inverse wrapper of each, 10 points, 8 methods, about 6.6e4 comparisons) is enumerated, so every branch/term of every hand-derived formula is exercised for integer and non-integer k and m, three rmin/R/rmax values and both trimming modes; VERIF_SEED moves the real-valued representatives inside small boxes. It is a decision on the lattice, argued (not proved) to generalise because a wrong rational/elementary closed form cannot agree with the true one on this many points.",
+        "mpmath at 40 digits is exact for this purpose; relative tolerance 2e-9 at interior points, 5e-2 at |x|>0.95 where r-rmin / 1-exp(-t) cancel in floating point; image-argument methods are referred to the exact pre-image of the float64 argument.",
+        "DESIGN.md 3/C03",
+    ),
 }
 
 NOT_YET = "check not built yet in this session (work in progress; see DESIGN.md section 8 for the order of work)"
